@@ -215,6 +215,27 @@ func drvKind(r *Rng) string {
 	return Pick(r, "fail", "fail", "busy", "busy", "locked", "ioerr", "full")
 }
 
+// lastWriteWins: at rest every log holds the last write its store reported as done (a refused request left nothing behind).
+func lastWriteWins(res *RunResult) []Violation {
+	var out []Violation
+	if res.FinalSnap == nil || res.FinalSnap.Err != "" {
+		return nil
+	}
+	for id, seq := range setsByLog(res) {
+		if got := res.FinalSnap.CP[id]; got != string(seq[len(seq)-1].Bytes) {
+			out = append(out, Violation{Class: "state_changed_on_refusal", Sig: "state_changed_on_refusal/at_rest/not_last_write", OpIdx: -1,
+				Detail: fmt.Sprintf("at rest the store holds %s for %s, the last write it reported as done was %s", short([]byte(got)), id[:8], short(seq[len(seq)-1].Bytes))})
+		}
+	}
+	for id := range res.FinalSnap.CP {
+		if len(setsByLog(res)[id]) == 0 {
+			out = append(out, Violation{Class: "state_changed_on_refusal", Sig: "state_changed_on_refusal/at_rest/stored_without_write", OpIdx: -1,
+				Detail: fmt.Sprintf("at rest the store holds a checkpoint for %s although no write for it was ever reported as done", id[:8])})
+		}
+	}
+	return out
+}
+
 func sameOpButClient(a, b Op) bool {
 	a.C, b.C = 0, 0
 	return a == b
@@ -412,6 +433,18 @@ func init() {
 			p.Cfg.Snap = true
 			p.Cfg.ReadBack = true
 			p.Ops = genHistory(r, pf, &p.Cfg)
+			if n%9 == 6 {
+				// requests racing each other (conflicting first use, forks from one old size): the losers are refused by the store;
+				// judged at rest - every log holds the last write the store took, and the log list names each such log once
+				p.Cfg.Snap, p.Cfg.ReadBack = false, false
+				for l := range p.Cfg.Logs {
+					if r.Chance(0.6) {
+						p.Ops = append([]Op{{K: "update", L: l, B: 0, D: uint64(r.Range(1, 5))}, {K: "update", L: l, B: r.IntN(len(p.Cfg.Logs[l].Forks) + 1), D: uint64(r.Range(1, 5))}}, p.Ops...)
+					}
+				}
+				makeConcurrent(r, p)
+				return p
+			}
 			if n%9 == 8 {
 				// the same kind of history arriving through the add-checkpoint endpoint (handler, adapter, witness)
 				q := scenarios["C10"].Gen(r, tier, n)
@@ -452,6 +485,13 @@ func init() {
 				return out
 			}
 			out.Viol = append(out.Viol, oracleC03(res)...)
+			if p.Cfg.Clients > 1 {
+				for _, v := range servedIsStored(res) {
+					v.Class, v.Sig = "state_changed_on_refusal", "state_changed_on_refusal/"+v.Sig
+					out.Viol = append(out.Viol, v)
+				}
+				out.Viol = append(out.Viol, lastWriteWins(res)...)
+			}
 			for _, r := range res.Hist {
 				if r.Op.K == "update" && r.Err != nil && r.Pre != nil {
 					cls := r.Class
